@@ -15,7 +15,8 @@ HIDS = ['h1', 'h2', 'h3', 'h4']
 TRACE_HIDS = '{' + ', '.join('"%s_%d"' % (h, n) for h in HIDS for n in range(1, 14)) + ', "h1", "h2"}'
 
 
-def cfg_text(spec, evs, hids, maxtasks, maxops, extra=''):
+def cfg_text(spec, evs, hids, maxtasks, maxops, extra='', hk='{FALSE}', cond='NoCondSet', cs='{0}'):
+    neg = '  CondSet <- %s\n' % cond if not cond.startswith('{') else '  CondSet = %s\n' % cond
     return """SPECIFICATION %s
 CONSTANTS
   Ev = %s
@@ -23,8 +24,10 @@ CONSTANTS
   Prio = {1, 2, 3}
   MaxTasks = %d
   MaxOps = %d
+  HkSet = %s
+%s  CSet = %s
 %sCHECK_DEADLOCK FALSE
-""" % (spec, evs, hids, maxtasks, maxops, extra)
+""" % (spec, evs, hids, maxtasks, maxops, hk, neg, cs, extra)
 
 
 MC_INV = 'INVARIANT CallbackOnce\nINVARIANT CallbackAfterAll\nINVARIANT NoOverlap\nINVARIANT PrioOrder\nPROPERTY CallbackAfterHandlers\n'
@@ -80,11 +83,11 @@ class QRun:
     def cur_id(self, hid):
         return '%s_%d' % (hid, self.gen.get(hid, 0))
 
-    def post(self, e, queue=None):
+    def post(self, e, queue=None, c=0):
         self.ntask += 1
         k = self.ntask
-        self.ev.append({'op': 'qpost', 'ev': e})
-        kw = {}
+        self.ev.append({'op': 'qpost', 'ev': e, 'c': c})
+        kw = {'a': 'p', 'c': c}
         if queue is not None:
             kw['queue'] = queue
         self.evm.post_queue('vq_' + e, callback=self.mk_cb(k), inst=k, **kw)
@@ -97,7 +100,7 @@ class QRun:
     def mk_handler(self, hid):
         def hnd(queue, **kwargs):
             k = kwargs.get('inst', -1)
-            self.ev.append({'op': 'qinvoke', 'k': k, 'h': hid})
+            self.ev.append({'op': 'qinvoke', 'k': k, 'h': hid, 'a': str(kwargs.get('a', 'MISSING'))})
             waited = False
             for s in self.program(k, hid):
                 if s['op'] == 'wait':
@@ -110,7 +113,7 @@ class QRun:
                     self.waits.pop((k, hid)).clear()
                     waited = False
                 elif s['op'] == 'qpost':
-                    self.post(s['ev'], queue if (self.fwd and waited) else None)
+                    self.post(s['ev'], queue if (self.fwd and waited) else None, s.get('c', 0))
                 else:
                     self.env(s)
             self.ev.append({'op': 'qret'})
@@ -122,7 +125,7 @@ class QRun:
     def mk_async(self, hid):
         async def coro(**kwargs):
             k = kwargs.get('inst', -1)
-            self.ev.append({'op': 'qinvoke', 'k': k, 'h': hid})
+            self.ev.append({'op': 'qinvoke', 'k': k, 'h': hid, 'a': str(kwargs.get('a', 'MISSING'))})
             # add_async_handler registered the wait before this coroutine started
             self.ev.append({'op': 'wait', 'k': k, 'h': hid})
             hold = False
@@ -132,7 +135,7 @@ class QRun:
                 elif s['op'] == 'clear':
                     hold = False
                 elif s['op'] == 'qpost':
-                    self.post(s['ev'])
+                    self.post(s['ev'], None, s.get('c', 0))
                 else:
                     self.env(s)
             self.ev.append({'op': 'qret'})
@@ -162,18 +165,21 @@ class QRun:
                 return
             self.gen[s['h']] = self.gen.get(s['h'], 0) + 1
             rid = self.cur_id(s['h'])       # every registration gets a fresh id (as the real uuid keys are)
+            hk, cond = bool(s.get('hk', False)), s.get('cond', -1)
+            name = 'vq_' + s['ev'] + ('{c==%d}' % cond if cond != -1 else '')
+            kw = {'a': 'h'} if hk else {}
             if s['h'] in self.asyncs:
-                key = self.evm.add_async_handler('vq_' + s['ev'], self.mk_async(rid), priority=s['prio'])
+                key = self.evm.add_async_handler(name, self.mk_async(rid), priority=s['prio'], **kw)
             else:
-                key = self.evm.add_handler('vq_' + s['ev'], self.mk_handler(rid), priority=s['prio'])
+                key = self.evm.add_handler(name, self.mk_handler(rid), priority=s['prio'], **kw)
             self.keys[s['h']] = key
-            self.ev.append({'op': 'qadd', 'h': rid, 'ev': s['ev'], 'prio': s['prio']})
+            self.ev.append({'op': 'qadd', 'h': rid, 'ev': s['ev'], 'prio': s['prio'], 'hk': hk, 'cond': cond})
         elif op == 'qremove':
             if s['h'] in self.keys:
                 self.evm.remove_handler_by_key(self.keys.pop(s['h']))
                 self.ev.append({'op': 'qremove', 'h': self.cur_id(s['h'])})
         elif op == 'qpost':
-            self.post(s['ev'])
+            self.post(s['ev'], None, s.get('c', 0))
         elif op == 'clear':
             hit = [w for w in self.waits if w[0] == s['k'] and w[1].split('_')[0] == s['h']]
             if hit:
@@ -307,6 +313,8 @@ def exec_mode_scenario(job):
             pend_cb = None
     if pend_cb:
         out.append(pend_cb)
+    dflt = {'qadd': {'hk': False, 'cond': -1}, 'qpost': {'c': 0}, 'qinvoke': {'a': 'p'}}
+    out = [dict(dflt.get(e['op'], {}), **e) for e in out]       # kwargs are not part of this scenario
     return {'ev': out, '_variant': variant}
 
 
@@ -334,6 +342,47 @@ def handmade():
     ]
 
 
+def queue_traces(ctx, wd, check_args, prefix, num, depth, with_modes=True):
+    """Queue-event schedules from the spec executed on the real EventManager and validated by QueueEventsTrace.
+    check_args: also judge the kwarg a handler sees (handler-registered over posted) - part of C01's statement."""
+    with open(wd + '/Gen.cfg', 'w') as f:
+        f.write(cfg_text('Spec', '{"q1", "q2", "q3"}', '{"h1", "h2", "h3", "h4"}', 6, 12, '', '{TRUE, FALSE}', 'FullCondSet', '{0, 1}'))
+    behs, _ = tlc.simulate(wd, 'QueueEvents', 'Gen.cfg', num=num, depth=depth,
+                           seed=ctx.seed)
+    rnd = random.Random(ctx.seed)
+    jobs = []
+    for b in behs:
+        asyncs = [x for x in HIDS if rnd.random() < 0.25]
+        falsers = [x for x in HIDS if x not in asyncs and rnd.random() < 0.3]
+        jobs.append(([s['act'] for s in b], rnd.random() < 0.5, asyncs, falsers))
+    for s in handmade():
+        jobs += [(s, False, [], []), (s, True, [], ['h1']), (s, False, ['h1', 'h3'], ['h2']), (s, True, ['h2'], ['h1', 'h3'])]
+    traces = harness.pmap(exec_schedule, jobs, chunk=8)
+    mjobs = ['listener', 'no_listener'] if with_modes else []
+    mtraces = [exec_mode_scenario(j) for j in mjobs]
+    all_traces = traces + mtraces
+    with open(wd + '/Trace.cfg', 'w') as f:
+        f.write(cfg_text('TSpec', '{}', TRACE_HIDS, 10 ** 6, 10 ** 6, '  CheckArgs = %s\nINVARIANT Reporter\n' % ('TRUE' if check_args else 'FALSE'), '{}', '{}', '{}'))
+    v = tlc.validate_traces(wd, 'QueueEventsTrace', 'Trace.cfg', all_traces)
+    ctx.add_trace_verdict('QueueEventsTrace', v, len(all_traces))
+    ctx.sample({'kind': 'queue-event-trace', 'trace': traces[0]['ev'][:16]})
+    if mtraces:
+        ctx.sample({'kind': 'use_wait_queue mode started from a queue event, listener on mode_m2_starting', 'trace': mtraces[0]['ev']})
+    for i, info in sorted(v.rejected.items()):
+        if info.get('line') is None:
+            continue
+        fe = info.get('failing_event') or {}
+        pe = info.get('prev_event') or {}
+        if i >= len(traces):
+            sig = prefix + ':mode-wait-queue:%s' % fe.get('op', 'end')
+            rp = {'kind': 'mode', 'variant': mjobs[i - len(traces)], 'trace': all_traces[i], 'info': info}
+        else:
+            sig = prefix + ':queue:%s-after-%s%s' % (fe.get('op', 'end'), pe.get('op', 'start'), ':fwd' if jobs[i][1] else '')
+            rp = {'kind': 'queue', 'job': list(jobs[i]), 'trace': all_traces[i], 'info': info}
+        ctx.violation(sig, 'queue event execution not explained by QueueEvents spec at line %s: %s (prev %s)' % (
+            info.get('line'), fe, pe), rp)
+
+
 def run(ctx):
     wd = tlc.prepare(ctx.scratch, 'QueueEvents', 'queueevents')
     evs = '{"q1"}' if ctx.quick else '{"q1", "q2"}'
@@ -347,42 +396,9 @@ def run(ctx):
     r = tlc.expect_ok(tlc.check(wd, 'QueueEvents', 'Live.cfg', timeout=1200), 'QueueEvents liveness check')
     ctx.add_tlc('QueueEvents liveness (AllComplete under weak fairness)', r)
     ctx.coverage['monitors'] += ['CallbackOnce', 'CallbackAfterAll', 'NoOverlap', 'PrioOrder', 'AllComplete(liveness)', 'Rest']
-    with open(wd + '/Gen.cfg', 'w') as f:
-        f.write(cfg_text('Spec', '{"q1", "q2", "q3"}', '{"h1", "h2", "h3", "h4"}', 6, 12))
-    behs, _ = tlc.simulate(wd, 'QueueEvents', 'Gen.cfg', num=350 if ctx.quick else 5000, depth=50 if ctx.quick else 80,
-                           seed=ctx.seed)
-    rnd = random.Random(ctx.seed)
-    jobs = []
-    for b in behs:
-        asyncs = [x for x in HIDS if rnd.random() < 0.25]
-        falsers = [x for x in HIDS if x not in asyncs and rnd.random() < 0.3]
-        jobs.append(([s['act'] for s in b], rnd.random() < 0.5, asyncs, falsers))
-    for s in handmade():
-        jobs += [(s, False, [], []), (s, True, [], ['h1']), (s, False, ['h1', 'h3'], ['h2']), (s, True, ['h2'], ['h1', 'h3'])]
-    traces = harness.pmap(exec_schedule, jobs, chunk=8)
-    mjobs = ['listener', 'no_listener']
-    mtraces = [exec_mode_scenario(j) for j in mjobs]
-    all_traces = traces + mtraces
-    with open(wd + '/Trace.cfg', 'w') as f:
-        f.write(cfg_text('TSpec', '{}', TRACE_HIDS, 10 ** 6, 10 ** 6, 'INVARIANT Reporter\n'))
-    v = tlc.validate_traces(wd, 'QueueEventsTrace', 'Trace.cfg', all_traces)
-    ctx.add_trace_verdict('QueueEventsTrace', v, len(all_traces))
-    ctx.sample({'kind': 'queue-event-trace', 'trace': traces[0]['ev'][:16]})
-    ctx.sample({'kind': 'use_wait_queue mode started from a queue event, listener on mode_m2_starting', 'trace': mtraces[0]['ev']})
-    for i, info in sorted(v.rejected.items()):
-        if info.get('line') is None:
-            continue
-        fe = info.get('failing_event') or {}
-        pe = info.get('prev_event') or {}
-        if i >= len(traces):
-            sig = 'C02:mode-wait-queue:%s' % fe.get('op', 'end')
-            rp = {'kind': 'mode', 'variant': mjobs[i - len(traces)], 'trace': all_traces[i], 'info': info}
-        else:
-            sig = 'C02:queue:%s-after-%s%s' % (fe.get('op', 'end'), pe.get('op', 'start'), ':fwd' if jobs[i][1] else '')
-            rp = {'kind': 'queue', 'job': list(jobs[i]), 'trace': all_traces[i], 'info': info}
-        ctx.violation(sig, 'queue event execution not explained by QueueEvents spec at line %s: %s (prev %s)' % (
-            info.get('line'), fe, pe), rp)
+    queue_traces(ctx, wd, False, 'C02', 350 if ctx.quick else 5000, 50 if ctx.quick else 80)
     # ---- relay / boolean events through the EventBus spec
+    rnd = random.Random(ctx.seed + 11)
     wd2 = tlc.prepare(ctx.scratch, 'EventBus', 'eventbus_rb')
     with open(wd2 + '/Gen.cfg', 'w') as f:
         f.write(c01.cfg_text('Spec', '{"e1", "e2"}', '{"h1", "h2", "h3", "h4"}', 6, 16, '{}',
@@ -418,7 +434,7 @@ def replay(ctx, data):
     print('replay trace:', tr['ev'])
     wd = tlc.prepare(ctx.scratch, 'QueueEvents', 'queueevents')
     with open(wd + '/Trace.cfg', 'w') as f:
-        f.write(cfg_text('TSpec', '{}', TRACE_HIDS, 10 ** 6, 10 ** 6, 'INVARIANT Reporter\n'))
+        f.write(cfg_text('TSpec', '{}', TRACE_HIDS, 10 ** 6, 10 ** 6, '  CheckArgs = %s\nINVARIANT Reporter\n' % ('TRUE' if data['sig'].startswith('C01') else 'FALSE'), '{}', '{}', '{}'))
     v = tlc.validate_traces(wd, 'QueueEventsTrace', 'Trace.cfg', [tr])
     for i, info in v.rejected.items():
         ctx.violation(data['sig'], 'replayed: %s' % info, d)
